@@ -51,6 +51,8 @@ type ModLoc struct {
 type DynCall struct {
 	Name string // name of the called value (param/freevar/field name)
 	Spec string // fnspec name
+	Args []SExpr // optional explicit argument expressions (evaluated in the caller), replacing the call's own arguments
+	HasArgs bool
 }
 
 type FuncContract struct {
@@ -129,6 +131,7 @@ type ContractSet struct {
 	Preds   map[string]*Pred
 	Ghosts  map[string]*GhostVar
 	Lemmas  []*Lemma
+	GlobalInvs map[string][]Clause // per package path: invariants over package-level variables, proved of init()
 	Files   []string
 	Scan    map[string]int // counts of assume/trusted/etc tokens
 }
@@ -139,6 +142,7 @@ func newContractSet() *ContractSet {
 		FnSpecs: map[string]*FuncContract{},
 		Preds:   map[string]*Pred{},
 		Ghosts:  map[string]*GhostVar{},
+		GlobalInvs: map[string][]Clause{},
 		Scan:    map[string]int{},
 	}
 }
@@ -201,7 +205,7 @@ func readContractLines(path string) ([]rawLine, string, error) {
 	return out, pkg, nil
 }
 
-var topKeywords = map[string]bool{"pred": true, "ghost": true, "fnspec": true, "func": true, "lemma": true}
+var topKeywords = map[string]bool{"pred": true, "ghost": true, "fnspec": true, "func": true, "lemma": true, "globalinv": true}
 var clauseKeywords = map[string]bool{
 	"props": true, "requires": true, "ensures": true, "onpanic": true, "modifies": true, "nopanic": true,
 	"maypanic": true, "recovers": true, "loop": true, "dyncall": true, "ghost": true, "assert": true,
@@ -262,6 +266,13 @@ func (cs *ContractSet) LoadContractFile(path, pkgPath string) error {
 			if err := cs.parsePred(rest, pkgPath, path, it.head.line); err != nil {
 				return err
 			}
+		case "globalinv":
+			label, props, txt := stripTags(rest)
+			e, err := parseSpecExpr(txt)
+			if err != nil {
+				return fmt.Errorf("%s:%d: %v", path, it.head.line, err)
+			}
+			cs.GlobalInvs[pkgPath] = append(cs.GlobalInvs[pkgPath], Clause{Kind: "globalinv", Label: label, Props: props, Text: txt, Expr: e, File: path, Line: it.head.line})
 		case "ghost":
 			// ghost var name type
 			w2, r2 := firstWord(rest)
@@ -531,7 +542,23 @@ func (cs *ContractSet) parseClause(fc *FuncContract, c rawLine, path string) err
 		if len(parts) != 2 {
 			return fmt.Errorf("%s:%d: dyncall <name> : <fnspec>", path, c.line)
 		}
-		fc.DynCalls = append(fc.DynCalls, DynCall{strings.TrimSpace(parts[0]), strings.TrimSpace(parts[1])})
+		dc := DynCall{Name: strings.TrimSpace(parts[0]), Spec: strings.TrimSpace(parts[1])}
+		if k := strings.Index(dc.Spec, "("); k >= 0 && strings.HasSuffix(dc.Spec, ")") {
+			argTxt := dc.Spec[k+1 : len(dc.Spec)-1]
+			dc.Spec = strings.TrimSpace(dc.Spec[:k])
+			dc.HasArgs = true
+			for _, a := range splitTop(argTxt, ',') {
+				if strings.TrimSpace(a) == "" {
+					continue
+				}
+				ex, err := parseSpecExpr(strings.TrimSpace(a))
+				if err != nil {
+					return fmt.Errorf("%s:%d: %v", path, c.line, err)
+				}
+				dc.Args = append(dc.Args, ex)
+			}
+		}
+		fc.DynCalls = append(fc.DynCalls, dc)
 	case "ghost", "assert":
 		// ghost before|after call <callee> [#k] : stmt ; stmt
 		// assert before|after call <callee> [#k] : expr
@@ -539,10 +566,10 @@ func (cs *ContractSet) parseClause(fc *FuncContract, c rawLine, path string) err
 		if kw == "ghost" && when == "at" {
 			// ghost at exit : stmts   (executed at every normal return, `result` bound)
 			w2, r2 := firstWord(r)
-			if w2 != "exit" || !strings.HasPrefix(strings.TrimSpace(r2), ":") {
-				return fmt.Errorf("%s:%d: expected 'ghost at exit : stmts'", path, c.line)
+			if (w2 != "exit" && w2 != "entry") || !strings.HasPrefix(strings.TrimSpace(r2), ":") {
+				return fmt.Errorf("%s:%d: expected 'ghost at exit|entry : stmts'", path, c.line)
 			}
-			hook := GhostHook{When: "exit", Line: c.line}
+			hook := GhostHook{When: w2, Line: c.line}
 			for _, st := range splitTop(strings.TrimSpace(strings.TrimSpace(r2)[1:]), ';') {
 				st = strings.TrimSpace(st)
 				if st == "" {
